@@ -332,9 +332,6 @@ func taintFaultSets(p *loaderlab.Plan, r *common.Rand, base *loaderlab.Result, t
 				for _, v := range loaderlab.PartialVariants[1:] {
 					sets = append(sets, part(fid, v, x, r.Pick(n)))
 				}
-				if os.Getenv("C07_OBJPATH") != "" { // `path` not an array: see loaderlab.PartialVariants
-					sets = append(sets, part(fid, "objpath", x, 0))
-				}
 				sets = append(sets, part(fid, "ok", x, n+r.Pick(3))) // a position the response does not have
 			}
 		}
